@@ -38,6 +38,7 @@ var depths = map[string][4]int{
 	"v2active": {2, 3, 1, 1},
 	"returned": {2, 3, 1, 1},
 	"v2ready":  {2, 3, 1, 1},
+	"public":   {2, 3, 1, 1},
 }
 
 // artefact of a violation / replay
